@@ -140,7 +140,7 @@ Inductive numres :=
 | NumOk (props : list edge) (top : Q).
 
 (* the numerator loop. props accumulate in call order (u0,v1) then (v0,u1) per pair. *)
-Fixpoint num_loop (nodes : list (list Z)) (tg : target) (u0 v0 : Z) (all1 : list edge)
+Fixpoint num_loop (fixed : bool) (nodes : list (list Z)) (tg : target) (u0 v0 : Z) (all1 : list edge)
          (a0 : list edge) (rem : list edge) (props : list edge) (top : Q) : numres :=
   match a0 with
   | [] => NumOk props top
@@ -151,7 +151,12 @@ Fixpoint num_loop (nodes : list (list Z)) (tg : target) (u0 v0 : Z) (all1 : list
       | Some (e1, rem') =>
           let u1 := other u0 e0 in
           let v1 := other v0 e1 in
-          let props' := props ++ [mk_edge u0 v1 (et e1) (em e1); mk_edge v0 u1 (et e0) (em e0)] in
+          (* append_proposal_edges(G, u0, old, (u0, v1)) / (G, v0, old, (v0, u1)): the new edge inherits
+             topology and motif id from [old].  /repo passes old = e0 for (u0,v1) and old = e1 for (v0,u1)
+             (fixed = false: the ids are crossed, open finding C11b); the repaired code passes e1 / e0. *)
+          let props' := props ++ (if fixed
+                                  then [mk_edge u0 v1 (et e1) (em e1); mk_edge v0 u1 (et e0) (em e0)]
+                                  else [mk_edge u0 v1 (et e0) (em e0); mk_edge v0 u1 (et e1) (em e1)]) in
           match exk nodes t u0, exk nodes t u1, exk nodes t v0, exk nodes t v1 with
           | Some ku0, Some ku1, Some kv0, Some kv1 =>
               let u0v1 := ku0 ++ kv1 in
@@ -162,7 +167,7 @@ Fixpoint num_loop (nodes : list (list Z)) (tg : target) (u0 v0 : Z) (all1 : list
                    | Some x, Some y =>
                        let top' := Qmult top (Qmult x y) in
                        if Qeq_bool top' (0#1) then NumFalse
-                       else num_loop nodes tg u0 v0 all1 a0' rem' props' top'
+                       else num_loop fixed nodes tg u0 v0 all1 a0' rem' props' top'
                    | _, _ => NumFalse
                    end
           | _, _, _, _ => NumErr E_INDEX
@@ -199,8 +204,8 @@ Inductive pre :=
 | PNeed (props : list edge) (top bot : Q).   (* random.random() is called next *)
 
 (* swap_condition up to the call of random.random() *)
-Definition swap_pre (nodes : list (list Z)) (tg : target) (u0 v0 : Z) (a0 a1 : list edge) : pre :=
-  match num_loop nodes tg u0 v0 a1 a0 (rev a1) [] (1#1) with
+Definition swap_pre (fixed : bool) (nodes : list (list Z)) (tg : target) (u0 v0 : Z) (a0 a1 : list edge) : pre :=
+  match num_loop fixed nodes tg u0 v0 a1 a0 (rev a1) [] (1#1) with
   | NumFalse => PFalse
   | NumErr c => PErr c
   | NumOk props top =>
@@ -285,7 +290,7 @@ Inductive next :=
 | Halt (r : status) (s : st) (accepted : bool).
 
 Record cfg := mkC { c_nodes : list (list Z); c_target : target; c_slimit : nat; c_climit : nat;
-                    c_nE : nat }.
+                    c_nE : nat; c_fixed : bool }.
 Definition c_M (C : cfg) : Z := Z.of_nat (length (c_nodes C)).
 
 (* top of the outer while loop *)
@@ -339,7 +344,7 @@ Definition step (C : cfg) (ph : phase) (s : st) (e : ev) : next :=
             if suitable (s_es s) u0 v0 a0 a1 then
               (* break *)
               if Nat.leb (c_slimit C) sc then enter_outer C s false
-              else match swap_pre (c_nodes C) (c_target C) u0 v0 a0 a1 with
+              else match swap_pre (c_fixed C) (c_nodes C) (c_target C) u0 v0 a0 a1 with
                    | PFalse => enter_outer C s false
                    | PErr c => Halt (Failed c) s false
                    | PNeed props top bot => Go (PhRandom u0 v0 c0 c1 props top bot) s false
@@ -384,10 +389,10 @@ Definition rewire (C : cfg) (es0 : list edge) (evs : list ev) : status * st * li
 (* constructor defaults *)
 Definition default_climit (es : list edge) : nat := 10 * length es.
 Definition default_slimit : nat := 25.
-Definition mk_cfg (nodes : list (list Z)) (tg : target) (es0 : list edge)
+Definition mk_cfg (fixed : bool) (nodes : list (list Z)) (tg : target) (es0 : list edge)
            (sl cl : option nat) : cfg :=
   mkC nodes tg (match sl with Some n => n | None => default_slimit end)
-      (match cl with Some n => n | None => default_climit es0 end) (length es0).
+      (match cl with Some n => n | None => default_climit es0 end) (length es0) fixed.
 
 (* ------------------------------------------------------------------ C11: the invariant, executable *)
 Definition key (e : edge) : Z * Z := (ea e, eb e).
@@ -417,14 +422,18 @@ Definition stubs (es : list edge) : list (Z * nat) :=
 Definition stub_eqb (p q : Z * nat) : bool := (fst p =? fst q) && Nat.eqb (snd p) (snd q).
 Definition count_stub (s : Z * nat) (l : list (Z * nat)) : nat := length (filter (stub_eqb s) l).
 Definition tdeg (es : list edge) (v : Z) (t : nat) : nat := count_stub (v, t) (stubs es).
-(* executable: topologies of es below the bound K of es0, and the sorted stub codes v*K+t agree *)
+(* labels: (motif id, topology) one per edge; class_count = number of edges of topology t in label class m *)
+Definition labels (es : list edge) : list (Z * nat) := map (fun e => (em e, et e)) es.
+Definition class_count (es : list edge) (m : Z) (t : nat) : nat := count_stub (m, t) (labels es).
+(* executable multiset equality of two lists of (Z, nat) pairs whose second components are below K:
+   the sorted codes x*K+t agree *)
 Definition topo_bound (es : list edge) : nat := S (fold_right Nat.max O (map et es)).
 Definition stub_code (K : Z) (s : Z * nat) : Z := fst s * K + Z.of_nat (snd s).
-Definition degrees_eqb (es0 es : list edge) : bool :=
-  let K := topo_bound es0 in
-  forallb (fun e => Nat.ltb (et e) K) es
-  && zs_eqb (ZSort.sort (map (stub_code (Z.of_nat K)) (stubs es)))
-            (ZSort.sort (map (stub_code (Z.of_nat K)) (stubs es0))).
+Definition pairs_eqb (K : nat) (l l0 : list (Z * nat)) : bool :=
+  forallb (fun s => Nat.ltb (snd s) K) l
+  && zs_eqb (ZSort.sort (map (stub_code (Z.of_nat K)) l)) (ZSort.sort (map (stub_code (Z.of_nat K)) l0)).
+Definition degrees_eqb (es0 es : list edge) : bool := pairs_eqb (topo_bound es0) (stubs es) (stubs es0).
+Definition classes_eqb (es0 es : list edge) : bool := pairs_eqb (topo_bound es0) (labels es) (labels es0).
 
 (* the edges of motif m as (pair, topology) *)
 Definition motif_edges (es : list edge) (m : Z) : list edge := filter (fun e => em e =? m) es.
@@ -480,21 +489,27 @@ Fixpoint uniq (l : list Z) : list Z :=
   end.
 Definition ids (es : list edge) : list Z := uniq (ZSort.sort (map em es)).
 
-Definition check_inv (nodes0 : list (list Z)) (es0 : list edge) (nodes : list (list Z)) (es : list edge) : bool :=
+(* the hard clauses: vertices and annotations, simple graph, edge count, per-vertex per-topology
+   degrees, per-label-class per-topology edge counts *)
+Definition check_hard (nodes0 : list (list Z)) (es0 : list edge) (nodes : list (list Z)) (es : list edge) : bool :=
   zss_eqb nodes nodes0
   && wfb (Z.of_nat (length nodes)) es
   && Nat.eqb (length es) (length es0)
   && degrees_eqb es0 es
-  && zs_eqb (ids es) (ids es0)
-  && forallb (shape_ok es0 es) (ids es0).
+  && classes_eqb es0 es.
+(* the shape clause: every label class still carries a motif of the original shape *)
+Definition check_shape (es0 es : list edge) : bool :=
+  zs_eqb (ids es) (ids es0) && forallb (shape_ok es0 es) (ids es0).
+Definition check_inv (nodes0 : list (list Z)) (es0 : list edge) (nodes : list (list Z)) (es : list edge) : bool :=
+  check_hard nodes0 es0 nodes es && check_shape es0 es.
 
-(* which conjunct fails first (diagnostics only): 0 = all hold *)
-Definition why_inv (nodes0 : list (list Z)) (es0 : list edge) (nodes : list (list Z)) (es : list edge) : Z :=
+(* which hard conjunct fails first (diagnostics only): 0 = all hold *)
+Definition why_hard (nodes0 : list (list Z)) (es0 : list edge) (nodes : list (list Z)) (es : list edge) : Z :=
   if negb (zss_eqb nodes nodes0) then 1
   else if negb (wfb (Z.of_nat (length nodes)) es) then 2
   else if negb (Nat.eqb (length es) (length es0)) then 3
   else if negb (degrees_eqb es0 es) then 4
-  else if negb (zs_eqb (ids es) (ids es0) && forallb (shape_ok es0 es) (ids es0)) then 5
+  else if negb (classes_eqb es0 es) then 7
   else 0.
 
 (* ------------------------------------------------------------------ C12: allowed pairings *)
@@ -558,17 +573,18 @@ Definition enc_status (r : status) : tree :=
   end.
 Definition enc_st (s : st) : tree := L [enc_edges (s_es s); of_zs (edges (s_ds s)); of_nat (s_cc s)].
 
-(* c11_run [nodes; edges (G.edges() order); target; slimit?; climit?; events]
+(* c11_run [nodes; edges (G.edges() order); target; slimit?; climit?; events; fixed]
    -> [status; final state; accepted states; [slimit; climit]] *)
 Definition c11_run (t : tree) : tree :=
   let nodes := dec_nodes (t_nth 0 t) in
   let es0 := dec_edges (t_nth 1 t) in
-  let C := mk_cfg nodes (dec_target (t_nth 2 t)) es0 (dec_opt_nat (t_nth 3 t)) (dec_opt_nat (t_nth 4 t)) in
+  let C := mk_cfg (t_bool (t_nth 6 t)) nodes (dec_target (t_nth 2 t)) es0 (dec_opt_nat (t_nth 3 t))
+                  (dec_opt_nat (t_nth 4 t)) in
   let '(r, sf, tr) := rewire C es0 (map dec_ev (t_list (t_nth 5 t))) in
   L [enc_status r; enc_st sf; L (map enc_st tr); L [of_nat (c_slimit C); of_nat (c_climit C)]].
 Definition c12_run (t : tree) : tree := c11_run t.
 
-(* method level: [nodes; edges; target; queries], query = [u0; v0; c0; c1; r]
+(* method level: [nodes; edges; target; queries; fixed], query = [u0; v0; c0; c1; r]
    -> per query [suitable; kind; top; bot; props; decision]   kind 0 False, 1 need random, 2 error *)
 Definition enc_pre (p : pre) (r : Q) : list tree :=
   match p with
@@ -585,7 +601,8 @@ Definition mcmc_methods (t : tree) : tree :=
         let v0 := t_z (t_nth 1 q) in
         match attrs es u0 (t_zs (t_nth 2 q)), attrs es v0 (t_zs (t_nth 3 q)) with
         | Some a0, Some a1 =>
-            L (of_bool (suitable es u0 v0 a0 a1) :: enc_pre (swap_pre nodes tg u0 v0 a0 a1) (t_q (t_nth 4 q)))
+            L (of_bool (suitable es u0 v0 a0 a1)
+                 :: enc_pre (swap_pre (t_bool (t_nth 4 t)) nodes tg u0 v0 a0 a1) (t_q (t_nth 4 q)))
         | _, _ => t_err E_KEY
         end) (t_list (t_nth 3 t))).
 
@@ -597,8 +614,13 @@ Definition mcmc_corners (t : tree) : tree :=
 Fixpoint first_bad (nodes0 : list (list Z)) (es0 : list edge) (gs : list (list (list Z) * list edge)) (i : Z) : Z * Z :=
   match gs with
   | [] => (-1, 0)
-  | (n, es) :: r => if check_inv nodes0 es0 n es then first_bad nodes0 es0 r (i + 1)
-                    else (i, why_inv nodes0 es0 n es)
+  | (n, es) :: r => if check_hard nodes0 es0 n es then first_bad nodes0 es0 r (i + 1)
+                    else (i, why_hard nodes0 es0 n es)
+  end.
+Fixpoint first_bad_shape (es0 : list edge) (gs : list (list (list Z) * list edge)) (i : Z) : Z :=
+  match gs with
+  | [] => -1
+  | (_, es) :: r => if check_shape es0 es then first_bad_shape es0 r (i + 1) else i
   end.
 Definition edge_eqb (e f : edge) : bool :=
   (ea e =? ea f) && (eb e =? eb f) && Nat.eqb (et e) (et f) && (em e =? em f).
@@ -614,16 +636,17 @@ Definition unchanged (nodes0 : list (list Z)) (es0 : list edge) (nodes1 : list (
   zss_eqb nodes1 nodes0 && edges_eqb es1 es0.
 
 (* c11_check [nodes0; edges0; graphs; input-after], graph = [nodes; edges]
-   -> [index of the first graph violating the invariant or -1; failing conjunct (6 = the input
-      object was modified)] *)
+   -> [i; why; j]  i = index of the first graph violating a hard clause or -1 (why = the clause;
+      6 = the input object was modified), j = index of the first graph violating the shape clause or -1 *)
 Definition c11_check (t : tree) : tree :=
   let nodes0 := dec_nodes (t_nth 0 t) in
   let es0 := dec_edges (t_nth 1 t) in
   let gs := map (fun g => (dec_nodes (t_nth 0 g), dec_edges (t_nth 1 g))) (t_list (t_nth 2 t)) in
   let after := t_nth 3 t in
+  let j := first_bad_shape es0 gs 0 in
   if unchanged nodes0 es0 (dec_nodes (t_nth 0 after)) (dec_edges (t_nth 1 after)) then
-    let '(i, w) := first_bad nodes0 es0 gs 0 in L [I i; I w]
-  else L [I 0; I 6].
+    let '(i, w) := first_bad nodes0 es0 gs 0 in L [I i; I w; I j]
+  else L [I 0; I 6; I j].
 
 (* c12_check [nodes; target; edges0; graphs (edge lists)] -> 1 iff every created edge is allowed *)
 Definition c12_check (t : tree) : tree :=
@@ -632,7 +655,7 @@ Definition c12_check (t : tree) : tree :=
 
 (* method level: the proposals the implementation produced for an accepted swap, applied to the
    network by the model's apply step, must again satisfy the invariant / be allowed pairings.
-   c11_check_swap [nodes; edges; u0; v0; c0; c1; props] -> [1; 0] | [0; why] (why >= 10: apply failed) *)
+   c11_check_swap [nodes; edges; u0; v0; c0; c1; props] -> [hard ok; why; shape ok] (why >= 10: apply failed) *)
 Definition swap_result (t : tree) : res (list edge * ds) :=
   let nodes := dec_nodes (t_nth 0 t) in
   let es := dec_edges (t_nth 1 t) in
@@ -643,8 +666,9 @@ Definition c11_check_swap (t : tree) : tree :=
   let nodes := dec_nodes (t_nth 0 t) in
   let es := dec_edges (t_nth 1 t) in
   match swap_result t with
-  | Ok (es', _) => if check_inv nodes es nodes es' then L [I 1; I 0] else L [I 0; I (why_inv nodes es nodes es')]
-  | Err c => L [I 0; I (10 + c)]
+  | Ok (es', _) => L [of_bool (check_hard nodes es nodes es'); I (why_hard nodes es nodes es');
+                      of_bool (check_shape es es')]
+  | Err c => L [I 0; I (10 + c); I 0]
   end.
 (* c12_check_swap [nodes; edges; u0; v0; c0; c1; props; target] *)
 Definition c12_check_swap (t : tree) : tree :=
